@@ -13,7 +13,7 @@ AUDIT_IMPORT = ("From Coq Require Import ZArith NArith List Bool.\nImport ListNo
 CASE_TYPE = "case"
 EXPLAIN = "explain"
 AXIOM_ALLOW = []
-SHARD = 2500
+SHARD = 2000
 SEARCH_MAX = 12000
 THEOREMS = [
     ("c08_initial", "forall (BUF : N) (src : list event), (1 <= BUF)%N -> wf_src src -> represents (new_reader BUF) src (data_of src)"),
@@ -78,11 +78,25 @@ RULE = ("inputs from a token/whitespace grammar (extreme and near-extreme values
         "token-interior position, between '-' and the digits, between CR and LF, chunks of BUF-1/BUF/BUF+1 bytes with tokens and "
         "CRLF pairs straddling the real buffer boundary (BUF read from the hook Reader::VERIF_BUF_SIZE; the model runs with the "
         "same capacity), random chunkings; ErrorKind::Interrupted before every read index (single and repeated); every case in "
-        "the debug and the release profile.  A separate small stream of out-of-contract cases (reads past the end, malformed or "
+        "the debug and the release profile.  Added families: runs of 3..1000 (and 200000) consecutive Interrupted before the first "
+        "read, inside a token, between CR and LF, before the read that sees the end, before every read, and where an oversize chunk "
+        "is cut at the capacity; line/String content with NUL, VT, FS/US, DEL, C1, NBSP, 0xff and multi-byte UTF-8 sequences cut at "
+        "every position; lines and String tokens longer than one and two buffers, > 2 buffers of whitespace (both tiers); per integer "
+        "type MAX, 00MAX (every 2-split, both tiers), MIN, 10^k neighbours with leading zeros; one input with pairwise distinct "
+        "components for each of the 10 tuple signatures, 5 read_vec::<tuple> and 4 nested-tuple signatures (checked as the flat "
+        "tuple of the model) and read_vec(2) of every scalar type; the Reader moved to another address (old place overwritten) "
+        "between operations (op m, no model counterpart); a second live Reader used between the operations (mode T, self-checked "
+        "by the executor, token X:twin on disagreement); the reader built by make_io! in a child process fed through a pipe chunk "
+        "by chunk (mode M0) and with every scripted Interrupted delivered as a real signal-interrupted read(2) (mode M1); B in "
+        "the case is the largest room the Reader offered to Read::read in that case, boundary cases aim at that observed "
+        "capacity.  A separate small stream of out-of-contract cases (reads past the end, malformed or "
         "out-of-range tokens) only requires model = implementation (debug: same panic point; release: same values up to the "
         "model's panic).  non-trivial = the script ends without panic and the schedule has >= 2 data chunks or an Interrupted")
 TRUSTED = ["executor harness/crates/c08 (a std::io::Read serving the scripted schedule, never more than the requested length; "
-           "typed reads through Reader::read/read_vec/read_line/read_lines/is_eof; prints returned values, strings as code points)",
+           "typed reads through Reader::read/read_vec/read_line/read_lines/is_eof; prints returned values, strings as code points; "
+           "relocation of the Reader between two heap blocks with unsafe ptr read/write; the comparison of the second Reader with "
+           "its solo run; the child-process driver for make_io!: pipe writes after FIONREAD reports the pipe drained, SIGUSR1 with "
+           "SA_RESTART off sent when /proc/<pid>/stat shows the child sleeping - all waits time out, results never depend on them)",
            "checks/c08.py (case generator, Coq term printer)"]
 ASSUMPTIONS = ["std::io::Read contract as modelled: a read delivers between 1 and buf.len() bytes of the stream in order, Ok(0) only at "
                "the end of input (an empty Data chunk in the middle of a schedule is excluded by hypothesis), ErrorKind::Interrupted "
@@ -99,24 +113,39 @@ SCALARS = INT_NAMES + ["s", "c"]
 # keep in sync with `fn tuple` in harness/crates/c08/src/main.rs
 TUPLES = ["i32,i32", "s,i64", "c,u8", "i8,u16,s", "i128,c,isize", "u64,i16,c,s", "usize,i64,u128,i8,u32",
           "i32,s,c,u8,i64,i16", "u8,u8,i8,i8,c,c,s", "i64,u64,i128,u128,isize,usize,s,c"]
+# keep in sync with `fn vec_tuple` / `fn nested` in harness/crates/c08/src/main.rs
+VEC_TUPLES = ["usize,usize", "i32,s", "i64,c,u8", "i128,i128", "u8,i8"]
+NESTED = ["((i32,i32),s)", "(i8,(c,(u64,s)),i16)", "((usize,usize),(isize,isize))", "(s,(u128,c,i128))"]
 WS = [32, 9, 10, 12, 13]
-BUF = 65536   # replaced in prepare() by the value the executor reports
+BUF = 65536   # replaced in prepare(): the room the Reader really offers to Read::read (observed by the executor)
+HOOK = 65536  # replaced in prepare(): Reader::VERIF_BUF_SIZE
 
 
 def prepare(ctx):
-    global BUF
+    global BUF, HOOK
     out = subprocess.run([ctx.bins[PROFILES[0]]], input="Q\n", stdout=subprocess.PIPE, text=True, timeout=60).stdout.split()
     if out and out[0].startswith("B"):
-        BUF = int(out[0][1:])
+        HOOK = BUF = int(out[0][1:])
+    if len(out) > 1 and out[1].startswith("R") and int(out[1][1:]) > 0:
+        BUF = int(out[1][1:])     # boundary cases aim at the real capacity, whatever the constant says
 
 
 # ----------------------------------------------------------------------------- case <-> lines / terms
+def is_intr(e):
+    """"I" = one Interrupted, "Ix<k>" = k in a row"""
+    return isinstance(e, str)
+
+
+def intr_count(e):
+    return 0 if not is_intr(e) else 1 if e == "I" else int(e[2:])
+
+
 def norm_sched(sched, n):
     """clip the data chunks to the n input bytes, drop empty ones, append what is left as a last chunk"""
     out, left = [], n
     for e in sched:
-        if e == "I":
-            out.append("I")
+        if is_intr(e):
+            out.append(e)
         else:
             k = min(int(e), left)
             if k > 0:
@@ -136,7 +165,7 @@ def sched_token(sched):
         j = i
         while j < len(sched) and sched[j] == e:
             j += 1
-        if e != "I" and j - i >= 4:
+        if not is_intr(e) and j - i >= 4:
             toks.append("%dx%d" % (e, j - i))
             i = j
         else:
@@ -146,9 +175,11 @@ def sched_token(sched):
 
 
 def harness_line(c):
+    """mode C: one Reader in the executor process; T<k>: a second Reader alive and in use between the operations;
+    M<k>: the Reader of make_io! in a child process fed through a pipe (k = 1: every I is a real EINTR)"""
     data = bytes.fromhex(c["input"])
     sched = norm_sched(c["sched"], len(data))
-    return " ".join(["C", c["input"] or "-", sched_token(sched)] + c["ops"])
+    return " ".join([c.get("mode", "C"), c["input"] or "-", sched_token(sched)] + c["ops"])
 
 
 def coq_bytes(bs):
@@ -180,7 +211,18 @@ def coq_sty(t):
     return "(TInt (mkIty %d %s))" % (b, "true" if s else "false")
 
 
+def flat_sig(o):
+    """component types of vt:<n>:<sig> / nt:<nested sig>, left to right"""
+    if o.startswith("vt:"):
+        _, n, sig = o.split(":")
+        return sig.split(",") * int(n)
+    return o[3:].replace("(", "").replace(")", "").split(",")
+
+
 def coq_op(o):
+    if o.startswith("vt:") or o.startswith("nt:"):
+        # read_vec::<(A, B)>(n) and nested tuples read the same tokens as the flat tuple: same model operation
+        return "(OTuple [%s])" % "; ".join(coq_sty(t) for t in flat_sig(o))
     if o == "l":
         return "OLine"
     if o == "L":
@@ -196,7 +238,19 @@ def coq_op(o):
 
 
 def unhex_list(h):
-    return list(bytes.fromhex(h))
+    """code points: two hex digits each, `[hex]` for one above 0xff (not a `u8 as char`: never equal to the model's)"""
+    if "[" not in h:
+        return list(bytes.fromhex(h))
+    out, i = [], 0
+    while i < len(h):
+        if h[i] == "[":
+            j = h.index("]", i)
+            out.append(int(h[i + 1:j], 16))
+            i = j + 1
+        else:
+            out.append(int(h[i:i + 2], 16))
+            i += 2
+    return out
 
 
 def coq_sval(tok):
@@ -215,7 +269,12 @@ def parse_obs(obs):
     vals, i, pan = [], 1, False
     while i < len(t):
         x = t[i]
-        if x == "P":
+        if x.startswith("X:"):
+            # an internal consistency check of the executor failed (second Reader disturbed / child died):
+            # a value no model run produces
+            vals.insert(0, "(VTuple [])")
+            i += 1
+        elif x == "P":
             pan = True
             i += 1
         elif x[0] in "tv" and x[1:].isdigit():
@@ -243,20 +302,28 @@ def parse_obs(obs):
 def coq_events(c):
     data = unhex_list(c["input"])
     sched = norm_sched(c["sched"], len(data))
-    evs, pos = [], 0
+    segs, evs, pos = [], [], 0
     for e in sched:
-        if e == "I":
-            evs.append("Intr")
+        if is_intr(e):
+            if intr_count(e) <= 8:
+                evs += ["Intr"] * intr_count(e)
+            else:
+                if evs:
+                    segs.append("[" + "; ".join(evs) + "]")
+                    evs = []
+                segs.append("(intrs %d)" % intr_count(e))
         else:
             evs.append("Data %s" % coq_bytes(data[pos:pos + e]))
             pos += e
-    return "[" + "; ".join(evs) + "]"
+    if evs or not segs:
+        segs.append("[" + "; ".join(evs) + "]")
+    return segs[0] if len(segs) == 1 else "(" + " ++ ".join(segs) + ")"
 
 
 def coq_term(c, obs, profile):
     buf, vals, pan = parse_obs(obs)
     return "(mkCase %d %s [%s] [%s] %s %s)" % (
-        buf, coq_events(c), "; ".join(coq_op(o) for o in c["ops"]), "; ".join(vals),
+        buf, coq_events(c), "; ".join(coq_op(o) for o in c["ops"] if o != "m"), "; ".join(vals),
         "true" if pan else "false", "true" if profile == "debug" else "false")
 
 
@@ -268,8 +335,14 @@ def nontrivial(c, obs):
 def sched_kind(c):
     n = len(c["input"]) // 2
     sched = norm_sched(c["sched"], n)
-    data = [e for e in sched if e != "I"]
-    k = "intr+" if "I" in sched else ""
+    data = [e for e in sched if not is_intr(e)]
+    k = ""
+    if any(is_intr(e) for e in sched):
+        k = "intr-run>=3+" if any(is_intr(e) and intr_count(e) >= 3 for e in sched) or "I,I,I" in ",".join(map(str, sched)) else "intr+"
+    if c.get("mode", "C")[0] == "T":
+        k = "two-readers/" + k
+    if c.get("mode", "C")[0] == "M":
+        k = "make_io-pipe/" + ("real-EINTR+" if c["mode"] == "M1" and k else "")
     if n >= BUF - 64:
         return k + "buffer-boundary"
     if len(data) <= 1:
@@ -284,8 +357,9 @@ def classify(c, obs):
         return "out-of-contract/" + ("panic" if obs.endswith("P") else "value")
     kinds = set()
     for o in c["ops"]:
-        kinds.add("line" if o in ("l", "L") else "eof" if o == "e" else "tuple" if o[0] == "t" and ":" in o else
-                  "vec" if o[0] == "v" else "token")
+        kinds.add("line" if o in ("l", "L") else "eof" if o == "e" else "moved" if o == "m" else
+                  "tuple" if o[0] == "t" and ":" in o else "vec-of-tuple" if o.startswith("vt:") else
+                  "nested-tuple" if o.startswith("nt:") else "vec" if o[0] == "v" else "token")
     return sched_kind(c) + "/" + "+".join(sorted(kinds)) + ("/panic" if obs.endswith("P") else "")
 
 
@@ -304,17 +378,26 @@ def shrink(c):
         d.update(kw)
         return d
     ops = c["ops"]
+    if c.get("mode", "C") != "C":
+        out.append(mk(mode="C"))
+        if c["mode"] == "M1":
+            out.append(mk(mode="M0"))
+    if "m" in ops:
+        out.append(mk(ops=[o for o in ops if o != "m"]))
     for i in range(len(ops)):
         out.append(mk(ops=ops[:i] + ops[i + 1:]))
     for i, o in enumerate(ops):
-        if o.startswith("v:"):
-            _, k, t = o.split(":")
+        if o.startswith("v:") or o.startswith("vt:"):
+            h, k, t = o.split(":")
             for k2 in sorted({int(k) // 2, int(k) - 1}):
                 if 0 <= k2 < int(k):
-                    out.append(mk(ops=ops[:i] + ["v:%d:%s" % (k2, t)] + ops[i + 1:]))
-    if "I" in sched:
-        out.append(mk(sched=[e for e in sched if e != "I"]))
-    ds = [e for e in sched if e != "I"]
+                    out.append(mk(ops=ops[:i] + ["%s:%d:%s" % (h, k2, t)] + ops[i + 1:]))
+    if any(is_intr(e) for e in sched):
+        out.append(mk(sched=[e for e in sched if not is_intr(e)]))
+        if any(intr_count(e) > 1 for e in sched):
+            out.append(mk(sched=["I" if is_intr(e) else e for e in sched]))
+            out.append(mk(sched=[("Ix%d" % (intr_count(e) // 2) if intr_count(e) > 3 else "I") if is_intr(e) else e for e in sched]))
+    ds = [e for e in sched if not is_intr(e)]
     if len(ds) > 1:
         out.append(mk(sched=[n]))
         for i in range(min(len(ds) - 1, 4)):
@@ -359,14 +442,23 @@ def int_token(rng, ty):
     return s.encode()
 
 
-NONWS = [b for b in range(33, 127)] + [0x0b, 0x7f, 0x00, 0x1f, 0x80, 0xa0, 0xff, 0x85]
+NONWS = [b for b in range(33, 127)] + [0x0b, 0x7f, 0x00, 0x1c, 0x1f, 0x80, 0xa0, 0xff, 0x85]
+# valid multi-byte UTF-8 sequences (the Reader is byte = Latin-1 code point; a reader that decodes UTF-8 per buffer
+# segment would give schedule-dependent results on these)
+UTF8 = [b"\xc3\xa9", b"\xe2\x82\xac", b"\xf0\x9f\x98\x80"]
 
 
 def str_token(rng):
     n = rng.choice([1, 1, 2, 3, 5, 8])
-    bs = []
+    bs = bytearray()
     for _ in range(n):
-        bs.append(rng.choice(NONWS) if rng.chance(1, 6) else rng.choice(list(b"abcxyzABC019-+._")))
+        k = rng.below(12)
+        if k < 2:
+            bs.append(rng.choice(NONWS))
+        elif k == 2:
+            bs += rng.choice(UTF8)
+        else:
+            bs.append(rng.choice(list(b"abcxyzABC019-+._")))
     return bytes(bs)
 
 
@@ -381,11 +473,29 @@ def scalar_token(rng, t):
     return int_token(rng, t) if t in INTS else (str_token(rng) if t == "s" else char_token(rng))
 
 
+LINE_ODD = [0x00, 0x0b, 0x1c, 0x1f, 0x7f, 0x80, 0x85, 0xa0, 0xff]
+
+
 def line_content(rng):
     n = rng.choice([0, 0, 1, 2, 3, 6])
     alpha = list(b"ab 1-\t") + [13, 13, 0x0c]
-    bs = [rng.choice(alpha) for _ in range(n)]
+    bs = bytearray()
+    for _ in range(n):
+        k = rng.below(10)
+        if k == 0:
+            bs.append(rng.choice(LINE_ODD))
+        elif k == 1:
+            bs += rng.choice(UTF8)
+        else:
+            bs.append(rng.choice(alpha))
     return bytes(bs)
+
+
+def unglued(rng, need_sep, add):
+    """line content that follows a token directly must not continue the token"""
+    if need_sep and add and add[0] not in WS:
+        return rng.choice([b" ", b"\t"]) + add
+    return add
 
 
 def gen_script(rng, nops, only_small=False):
@@ -405,9 +515,15 @@ def gen_script(rng, nops, only_small=False):
                 comps = [rng.choice(["s", "c"])]
                 ops.append(comps[0])
             elif r < 8:
-                sig = rng.choice(TUPLES[:4] if only_small else TUPLES)
-                comps = sig.split(",")
-                ops.append("t:" + sig)
+                k = rng.below(7)
+                if k < 5:
+                    sig = rng.choice(TUPLES[:4] if only_small else TUPLES)
+                    comps = sig.split(",")
+                    ops.append("t:" + sig)
+                else:
+                    o = ("vt:%d:%s" % (rng.choice([0, 1, 2]), rng.choice(VEC_TUPLES))) if k == 5 else "nt:" + rng.choice(NESTED)
+                    comps = flat_sig(o)
+                    ops.append(o)
             else:
                 t = rng.choice(SCALARS)
                 n = rng.choice([0, 1, 2, 3]) if only_small else rng.choice([0, 1, 2, 3, 5, 9])
@@ -420,18 +536,21 @@ def gen_script(rng, nops, only_small=False):
                 need_sep = (t != "c") or rng.chance(1, 2)
         elif r < 13:
             ops.append("l")
-            inp += line_content(rng)
+            add = line_content(rng)
             if last and rng.chance(1, 2):
                 pass
             else:
-                inp += rng.choice([b"\n", b"\n", b"\r\n"])
+                add += rng.choice([b"\n", b"\n", b"\r\n"])
+            inp += unglued(rng, need_sep, add)
             need_sep = False
         elif r < 14:
             ops.append("L")
+            add = b""
             for _ in range(rng.below(4)):
-                inp += line_content(rng) + rng.choice([b"\n", b"\r\n"])
+                add += line_content(rng) + rng.choice([b"\n", b"\r\n"])
             if rng.chance(1, 2):
-                inp += line_content(rng)
+                add += line_content(rng)
+            inp += unglued(rng, need_sep, add)
             done_tokens, need_sep = True, False
         else:
             ops.append("e")
@@ -481,17 +600,48 @@ def with_intr_everywhere(sched):
     return out
 
 
+def with_intr_runs(sched, ks):
+    """runs of k consecutive Interrupted (k cycling through ks) before each read index, incl. the read that sees the end"""
+    out = []
+    for i in range(len(sched) + 1):
+        out.append(sched[:i] + ["Ix%d" % ks[i % len(ks)]] + sched[i:])
+    out.append([x for e in sched for x in ("Ix%d" % ks[0], e)] + ["Ix%d" % ks[-1]])
+    return out
+
+
+def some_intr(rng):
+    return "I" if rng.chance(3, 4) else "Ix%d" % rng.choice([2, 3, 3, 4, 5, 9, 33])
+
+
 def random_sched(rng, n, maxchunk=None):
     out, left = [], n
     mc = maxchunk or max(1, n)
     while left > 0:
         k = min(left, rng.choice([1, 1, 2, 3, rng.range(1, mc)]))
         if rng.chance(1, 6):
-            out.append("I")
+            out.append(some_intr(rng))
         out.append(k)
         left -= k
     if rng.chance(1, 4):
-        out.append("I")
+        out.append(some_intr(rng))
+    return out
+
+
+def cuts_sched(data):
+    """cut at every delicate place"""
+    cuts = interesting_splits(data)
+    return [b - a for a, b in zip([0] + cuts, cuts + [len(data)])]
+
+
+def with_moves(rng, ops):
+    """the same script with the Reader moved (and its old place overwritten) between operations"""
+    if len(ops) < 2:
+        return ["m"] + list(ops)
+    out, must = [], rng.range(1, len(ops) - 1)
+    for i, o in enumerate(ops):
+        if i == must or (i > 0 and rng.chance(1, 2)):
+            out.append("m")
+        out.append(o)
     return out
 
 
@@ -502,6 +652,10 @@ HAND = [
     ("255 0", ["u8", "u8", "e"]), ("\r\r\n\r", ["L"]), ("-1\r\n", ["i16", "l", "l"]), ("7 \r\nq", ["u8", "l", "l", "e"]),
     ("\r", ["l", "l"]), ("a\r", ["L", "e"]), ("\n\n", ["l", "l", "l"]), ("", ["e", "l", "L"]), ("-32768", ["i16"]),
     ("65535\x0c", ["u16", "e"]), ("a\x0bb c", ["s", "s", "e"]), ("\x0b1", ["c", "u8"]), ("ab\r\n", ["s", "l", "l"]), ("-\r", ["s", "L"]), ("1\r2", ["l"]),
+    # bytes that only a byte-transparent (Latin-1) reader returns unchanged under every chunking: NUL, VT, FS/US, DEL,
+    # C1/NBSP/0xff and multi-byte UTF-8 sequences (e-acute, euro sign, an emoji) cut at every position
+    ("\xc3\xa9\r\n\xe2\x82\xac", ["L"]), ("a\x00b\x0b\n", ["L"]), ("\xf0\x9f\x98\x80 \xc3\xa9", ["s", "s", "e"]),
+    ("\x1c\x1f\x7f\x85\xa0\xff", ["l", "l"]), ("\xe2\x82\xac\r", ["c", "c", "c", "l", "e"]),
 ]
 # the two defects repaired in /repo (known_findings.txt): kept so that a regression is caught
 LONG_HAND = [
@@ -518,30 +672,195 @@ def case(data, sched, ops, **kw):
     return dict({"input": data.hex(), "sched": list(sched), "ops": list(ops)}, **kw)
 
 
-def boundary_cases(rng, tier):
-    B = BUF
+def boundary_cases(rng, tier, B):
+    """inputs around the real buffer capacity B (big = True: they are spread over the batch files)"""
+    quick = (tier == "quick")
     out = []
     tails = [(b"-128 77\r\nxy\r\n", ["i8", "i8", "L"]), (b"-32768\r\n\r\nz", ["i16", "l", "l", "l"]),
              (b"ab\r\ncd\r", ["s", "L"])]
-    pads = [1, 2, 3, 4, 7] if tier == "quick" else list(range(0, 10))
+    pads = [1, 2, 3, 4, 7] if quick else list(range(0, 10))
     for j in pads:
         tail, ops = tails[j % len(tails)]
         data = b" " * (B - j) + tail
         n = len(data)
-        scheds = [[n], [B - 1, n], [B + 1, n]] if tier == "quick" else [[n], [B - 1, n], [B, n], [B + 1, n], [B - j, 1, n], [1, B - 1, 1, n]]
-        for s in (scheds if tier != "quick" else [scheds[j % 3]]):
+        # j = 1 with [n] or [B, n]: the '-' is the last byte of a full buffer
+        scheds = [[n], [B - 1, n], [B + 1, n]] if quick else [[n], [B - 1, n], [B, n], [B + 1, n], [B - j, 1, n], [1, B - 1, 1, n]]
+        for s in (scheds if not quick else [scheds[(j + 2) % 3]]):
             out.append(case(data, s, ops))
-        if tier != "quick" or j == 2:
+        if quick and j == 1:
+            out.append(case(data, [B - j, 1, n], with_moves(rng, ops)))
+        if quick and j == 2:
+            out.append(case(data, [1, B - 1, 1, n], ops, mode="T1"))
+        if not quick or j == 2:
             out.append(case(data, ["I", B - j, "I", 1, "I", n], ops))
+        if not quick or j == 3:
+            # Interrupted (single, and a long run) exactly where an oversize chunk is split at the capacity
+            out.append(case(data, [B, "I", 1, "I", n], ops))
+            out.append(case(data, [B, "Ix1000", n], ops))
+        if not quick and j in (1, 4):
+            out.append(case(data, [B - j, "Ix17", 1, "Ix3", n], with_moves(rng, ops), mode="T2"))
     # a CR LF pair / a digit run / a string token across the boundary
-    for j in ([1] if tier == "quick" else [0, 1, 2]):
+    for j in ([1] if quick else [0, 1, 2]):
         out.append(case(b"a" * (B - j) + b"\r\n" + b"b\n", [B, 1, 3] if j else [B + 4], ["L"]))
     out.append(case(b"0" * (B - 1) + b"255 x", [B - 1, 6], ["u8", "c", "e"]))
-    if tier != "quick":
-        out.append(case(b"q" * (B + 3) + b" 1", [B + 5], ["s", "u8"]))
+    # a String token and lines longer than the buffer (one and two refills inside the token / line), a multi-byte UTF-8
+    # sequence straddling the boundary; > 2 buffers of whitespace
+    out.append(case(b"q" * (B + 3) + b" 1", [B + 5], ["s", "u8"]))
+    line1 = b"a" * (B - 1) + b"\xc3\xa9" + b"z" * 4                             # B + 5 bytes
+    line2 = b"a" * (B - 2) + b"\xe2\x82\xac" + b"b" * (B - 3) + b"\xf0\x9f\x98\x80" + b"c" * 3   # 2B + 5 bytes
+    d1, d2 = line1 + b"\r\nx\r", line2 + b"\n\ny"
+    out.append(case(d1, [len(d1)], ["L"]))
+    out.append(case(d2, [B - 1, len(d2)], ["l", "m", "l", "l", "l", "e"]))
+    out.append(case(b" " * (2 * B + 1) + b"5", [2 * B + 2], ["e", "i32", "e"]))
+    # the same long line through make_io! and a pipe
+    out.append(case(d1, [B - 1, 3, len(d1)], ["L"], mode="M0"))
+    if not quick:
+        out.append(case(d1, [B - 1] + [1] * 9 + [len(d1)], ["l", "l", "l"]))
+        out.append(case(d1, ["Ix3", B, "Ix64", len(d1)], ["L"], mode="T0"))
+        out.append(case(d2, [len(d2)], ["L"]))
+        out.append(case(d2, [B, "I", B, "I", "I", "I", len(d2)], ["L"]))
+        out.append(case(d2, ["I", B + 1, "I", B + 1, "Ix3", len(d2)], ["L"], mode="M1"))
+        out.append(case(b"q" * (2 * B + 3) + b"\x0c1", [2 * B + 5], ["s", "m", "u8"]))
         # many empty lines across the boundary (65538 of them made the model's read_lines quadratic: > 15 min of coqc)
         out.append(case(b"y" * (B - 40) + b"\n" * 90, [B + 50], ["L"]))
-        out.append(case(b" " * (2 * B + 1) + b"5", [2 * B + 2], ["e", "i32", "e"]))
+    for c in out:
+        c["big"] = True
+    return out
+
+
+INTR_INPUTS = [(b"-128 77\r\nxy\r\n", ["i8", "i8", "L"]), (b"12345678 ab\r\n\r\nq", ["u32", "s", "l", "l", "l", "e"]),
+               (b"\nabc\r", ["L"]), (b"x 7 \r\n", ["t:c,u8", "e", "l"])]
+
+
+def intr_run_cases(rng, tier):
+    """runs of >= 3 consecutive ErrorKind::Interrupted: before the first read, inside a token, between CR and LF,
+    before the read that sees the end of input, before every read"""
+    quick = (tier == "quick")
+    out = []
+    ks = [3, 4, 8, 17, 64, 1000]
+    for idx, (data, ops) in enumerate(INTR_INPUTS):
+        n = len(data)
+        sp = interesting_splits(data)
+        crlf = [p for p in range(1, n) if data[p - 1] == 13 and data[p] == 10]
+        for ki, k in enumerate(ks):
+            run = "Ix%d" % k
+            out.append(case(data, [run, n], ops))
+            out.append(case(data, [n, run], ops))
+            for p in (sp if not quick else sorted(set([sp[(ki + idx) % len(sp)]] + crlf[:1]))):
+                out.append(case(data, [p, run, n - p], ops))
+        for s in with_intr_runs([1] * n, [3, 5, 4]) if not quick else with_intr_runs([1] * n, [3, 5, 4])[-1:]:
+            out.append(case(data, s, ops))
+    # a retry loop turned into recursion needs a really long run
+    data, ops = INTR_INPUTS[0]
+    big = "Ix200000"
+    out.append(case(data, [big, 3, len(data)], ops))
+    if not quick:
+        out.append(case(data, [2, big, 5, big, len(data), big], ops))
+        out.append(case(data, [2, "Ix50000", len(data)], ops, mode="T1"))
+    return out
+
+
+def type_boundary_cases(rng, tier):
+    """per integer type: MAX, MIN, both with leading zeros, 10^k boundaries next to the digit count of MAX; every 2-split"""
+    quick = (tier == "quick")
+    out = []
+    seps = [b" ", b"\n", b"\r\n", b"\t"]
+    for ti, (ty, (bits, signed)) in enumerate(INTS.items()):
+        lo = -(1 << (bits - 1)) if signed else 0
+        hi = (1 << (bits - 1)) - 1 if signed else (1 << bits) - 1
+        d = len(str(hi))
+        # MAX alone and with leading zeros: every 2-split in both tiers (MIN: every 2-split is in HAND / LONG_HAND)
+        for tok in [str(hi), "00" + str(hi)] + ([] if quick else [str(lo), "0" + str(hi // 10 + 1)]):
+            data = tok.encode() + seps[ti % 4]
+            n = len(data)
+            ops = [ty, "e"]
+            if not quick or tok[0] != "0":
+                out.append(case(data, [n], ops))
+                out.append(case(data, [1] * n, ops))
+            for p in range(1, n):
+                if not quick or tok[0] != "0" or p % 2 == ti % 2:
+                    out.append(case(data, [p, n - p], ops))
+        toks = ["9" * (d - 1), "1" + "0" * (d - 1), ("-000" + str(-lo)) if signed else ("000" + str(hi - 1)),
+                ("-" + "9" * (d - 1)) if signed else "0", ("-1" + "0" * (d - 1)) if signed else str(hi // 10 + 1), "0" + str(hi - 1)]
+        data = b"".join(t.encode() + seps[(i + ti) % 4] for i, t in enumerate(toks)).rstrip()   # the last token ends at the end of input
+        n = len(data)
+        ops = [ty] * len(toks) + ["e"]
+        out.append(case(data, [n], ops))
+        out.append(case(data, [1] * n, ops))
+        out.append(case(data, cuts_sched(data), ops))
+        for p in (range(1 + ti % 2, n, 2) if not quick else [rng.range(1, n - 1) for _ in range(2)]):
+            out.append(case(data, [p, n - p], ops))
+        if not quick:
+            for s in with_intr_everywhere(cuts_sched(data))[ti % 4::4]:
+                out.append(case(data, s, ops))
+    return out
+
+
+def distinct_tokens(comps):
+    """pairwise distinct component values: a transposed or duplicated component is visible"""
+    toks = []
+    for i, t in enumerate(comps):
+        if t in INTS:
+            bits, signed = INTS[t]
+            hi = (1 << (bits - 1)) - 1 if signed else (1 << bits) - 1
+            v = min(hi - 3 * i, 1000 * (i + 1) + i)     # short tokens; the extremes of every type are in type_boundary_cases
+            if signed and i % 2 == 1:
+                v = -v - 1
+            toks.append(str(v).encode())
+        elif t == "s":
+            toks.append(b"s%dx-%d" % (i, i))
+        else:
+            toks.append(bytes([ord("A") + i]))
+    return toks
+
+
+def signature_cases(rng, tier):
+    """every tuple signature, every vector-of-tuple and nested-tuple signature, read_vec(2) of every scalar type"""
+    quick = (tier == "quick")
+    out = []
+    sigs = ["t:" + x for x in TUPLES] + ["vt:2:" + x for x in VEC_TUPLES] + ["vt:0:usize,usize", "vt:1:i32,s"] + \
+           ["nt:" + x for x in NESTED] + ["v:2:" + x for x in SCALARS]
+    for si, o in enumerate(sigs):
+        comps = o[2:].split(",") if o.startswith("t:") else [o.split(":")[2]] * 2 if o.startswith("v:") else flat_sig(o)
+        toks = distinct_tokens(comps)
+        data = b"".join(t + SEPS[(i + si) % 6] for i, t in enumerate(toks))
+        n = len(data)
+        ops = [o, "e"]
+        out.append(case(data, [n], ops))
+        out.append(case(data, [1] * n, ops))
+        step = 1 if not quick else 2
+        for p in range(1 + (si % step), n, step):
+            out.append(case(data, [p, n - p], ops))
+        out.append(case(data, cuts_sched(data), ops, mode="T%d" % (si % 3)))
+    return out
+
+
+def make_io_cases(rng, tier):
+    """the Reader that make_io! builds (real stdin = a pipe, in a child process): chunk by chunk, with real EINTR"""
+    quick = (tier == "quick")
+    out = []
+    pool = [(d.encode("latin-1"), ops) for d, ops in HAND + LONG_HAND]
+    for i, (data, ops) in enumerate(pool):
+        n = len(data)
+        scheds = [[n], [1] * n if n <= 40 else random_sched(rng, n), cuts_sched(data)]
+        for s in (scheds if not quick else [scheds[i % 3]]):
+            out.append(case(data, [e for e in s if not is_intr(e)], ops, mode="M0"))
+        if not quick or i % 3 == 0:
+            cs = cuts_sched(data)
+            out.append(case(data, [x for e in cs for x in ("I", e)] + ["I", "I"], ops, mode="M1"))
+        if not quick and n <= 12:
+            for s in with_intr_runs([1] * n, [3, 4])[::3]:
+                out.append(case(data, s, ops, mode="M1"))
+    for i in range(14 if quick else 220):
+        data, ops = gen_script(rng, rng.range(1, 6), only_small=rng.chance(1, 2))
+        n = len(data)
+        ops = with_moves(rng, ops) if rng.chance(1, 3) else ops
+        out.append(case(data, cuts_sched(data) if i % 2 else [e for e in random_sched(rng, n) if not is_intr(e)], ops, mode="M0"))
+        out.append(case(data, random_sched(rng, n, 6), ops, mode="M1"))
+    for d, ops in [("", ["i32"]), ("-", ["i32"]), ("128 1", ["i8", "i8"]), ("7", ["t:i32,i32"]), ("", ["c"])]:
+        data = d.encode()
+        out.append(case(data, [len(data)] if data else [], ops, mode="M0", ooc=True))
+        out.append(case(data, ["I"] + [1] * len(data) + ["I"], ops, mode="M1", ooc=True))
     return out
 
 
@@ -579,7 +898,7 @@ def generate(rng, tier):
     cases = []
     # 1. hand-picked short inputs: every chunking, Interrupted at every read index of the bytewise schedule
     lim = 7 if quick else 11
-    for d, ops in HAND:
+    for hi, (d, ops) in enumerate(HAND):
         data = d.encode("latin-1")
         n = len(data)
         if n <= lim:
@@ -594,6 +913,15 @@ def generate(rng, tier):
             cases.append(case(data, s, ops))
         for s in with_intr_everywhere([n] if n else []):
             cases.append(case(data, s, ops))
+        # the Reader moved between the operations; a second Reader in use between the operations
+        mops = with_moves(rng, ops)
+        for s in ([n], [1] * n, cuts_sched(data)):
+            cases.append(case(data, s, mops))
+        for k, s in enumerate(([n], [1] * n, cuts_sched(data))):
+            cases.append(case(data, s, mops if k == 1 else ops, mode="T%d" % ((hi + k) % 3)))
+        if not quick:
+            for s in with_intr_runs([1] * n, [3, 7, 4]):
+                cases.append(case(data, s, ops))
     for d, ops in LONG_HAND:
         data = d.encode("latin-1")
         n = len(data)
@@ -604,7 +932,7 @@ def generate(rng, tier):
         for s in with_intr_everywhere([1] * n)[:: (3 if quick else 1)]:
             cases.append(case(data, s, ops))
     # 2. random in-contract scripts x targeted and random schedules
-    nrand = 260 if quick else 1500
+    nrand = 170 if quick else 1500
     for i in range(nrand):
         data, ops = gen_script(rng, rng.range(1, 6), only_small=rng.chance(1, 2))
         n = len(data)
@@ -614,8 +942,7 @@ def generate(rng, tier):
         if sp:
             for p in (sp if (not quick or len(sp) <= 3) else [rng.choice(sp) for _ in range(3)]):
                 cases.append(case(data, [p, n - p], ops))
-            cuts = sorted(set(sp))
-            cases.append(case(data, [b - a for a, b in zip([0] + cuts, cuts + [n])], ops))   # cut at every delicate place
+            cases.append(case(data, cuts_sched(data), ops))   # cut at every delicate place
         for _ in range(2 if quick else 4):
             cases.append(case(data, random_sched(rng, n), ops))
         if n <= 9 and not quick and i % 5 == 0:
@@ -624,16 +951,47 @@ def generate(rng, tier):
         if rng.chance(1, 4 if quick else 2):
             for s in with_intr_everywhere([1] * n)[:: (4 if quick else 1)]:
                 cases.append(case(data, s, ops))
+        # Interrupted before every read of the multi-byte "delicate cuts" schedule (e.g. on the read after a chunk ending in CR)
+        if sp and rng.chance(1, 6):
+            ws = with_intr_everywhere(cuts_sched(data))
+            for s in ws[rng.below(2):: max(2, len(ws) // (4 if quick else 8))]:
+                cases.append(case(data, s, ops))
+            if not quick:
+                for s in with_intr_runs(cuts_sched(data), [3, 6])[:: max(3, len(ws) // 3)]:
+                    cases.append(case(data, s, ops))
+        # the Reader is moved between operations (all data buffered / bytewise / delicate cuts); two Readers interleaved
+        mops = with_moves(rng, ops)
+        cases.append(case(data, rng.choice([[n], [n], [1] * n, cuts_sched(data), random_sched(rng, n)]), mops))
+        cases.append(case(data, rng.choice([[n], [1] * n, cuts_sched(data), random_sched(rng, n)]),
+                          mops if rng.chance(1, 2) else ops, mode="T%d" % rng.below(3)))
+        if not quick:
+            cases.append(case(data, [n], mops))
+            cases.append(case(data, cuts_sched(data), mops, mode="T%d" % rng.below(3)))
     # 3. a larger vector / many tokens
     for t in (["i64", "s"] if quick else SCALARS):
         n = 120
         toks = [scalar_token(rng, t) for _ in range(n)]
         data = b"".join(tok + rng.choice(SEPS) for tok in toks)
         cases.append(case(data, random_sched(rng, len(data), 40), ["v:%d:%s" % (n, t), "e"]))
-    # 4. the real buffer boundary
-    cases += boundary_cases(rng, tier)
+    for sig in (VEC_TUPLES[:1] if quick else VEC_TUPLES):
+        n = 37
+        comps = sig.split(",") * n
+        data = b"".join(scalar_token(rng, t) + rng.choice(SEPS) for t in comps)
+        cases.append(case(data, random_sched(rng, len(data), 40), ["vt:%d:%s" % (n, sig), "e"]))
+    # 4. runs of Interrupted; per-type boundaries; every tuple / vector / nested signature; make_io! through a pipe
+    cases += intr_run_cases(rng, tier)
+    cases += type_boundary_cases(rng, tier)
+    cases += signature_cases(rng, tier)
+    cases += make_io_cases(rng, tier)
     # 5. out of contract: model = implementation only
     cases += ooc_cases(rng, 120 if quick else 1200)
+    # 6. the real buffer boundary (expensive for Coq: spread evenly over the batch files)
+    big = []
+    for B in sorted({BUF, HOOK}):
+        big += boundary_cases(rng, tier, B)
+    step = max(1, len(cases) // (len(big) + 1))
+    for k, c in enumerate(big):
+        cases.insert(min(len(cases), (k + 1) * step + k), c)
     return cases
 
 
@@ -670,7 +1028,7 @@ def extra(ctx, known):
     lines = []
     for _ in range(200000):
         k = rng.below(8)
-        lines.append(bytes(rng.choice(list(b"ab \r\t1-")) for _ in range(rng.choice([0, 1, 3, 8, 20]))) + (b"\r\n" if k < 3 else b"\n"))
+        lines.append(bytes(rng.choice(list(b"ab \r\t1-ab \r\t1-\x00\x0b\x1c\x7f\x80\x85\xa0\xc3\xa9\xe2\x82\xac\xff")) for _ in range(rng.choice([0, 1, 3, 8, 20]))) + (b"\r\n" if k < 3 else b"\n"))
     data_b = b"".join(lines) + b"tail\r"
     ref = py_lines(data_b)
     exp_b = "B%d L%d %s e:1" % (B, len(ref), " ".join("=" + x.hex() for x in ref))
@@ -679,9 +1037,15 @@ def extra(ctx, known):
         n = len(data)
         scheds = {"one-read": [n], "bytewise": [1] * n, "buf-1": [B - 1] * (n // (B - 1) + 1), "buf+1": [B + 1] * (n // (B + 1) + 1),
                   "random": random_sched(rng, n, 3 * B), "small-random": random_sched(rng, min(n, 400000), 7) + [n],
-                  "intr-bytewise": [x for _ in range(min(n, 300000)) for x in ("I", 1)] + [n]}
+                  "intr-bytewise": [x for _ in range(min(n, 300000)) for x in ("I", 1)] + [n],
+                  "intr-runs": [x for _ in range(n // B + 1) for x in ("Ix1000", B - 3, "Ix3", 3)],
+                  "two-readers": random_sched(rng, n, 2 * B),
+                  "make_io-pipe": [x for _ in range(n // (B - 1) + 1) for x in ("I", B - 1)]}
+        modes = {"two-readers": "T1", "make_io-pipe": "M1"}
         for sname, sch in scheds.items():
-            c = case(data, sch, ops)
+            c = case(data, sch, ops, mode=modes.get(sname, "C"))
+            if sname == "make_io-pipe":
+                expected = expected.replace("B%d " % B, "B%d " % HOOK, 1)    # the child cannot observe the room: it prints the hook (last schedule)
             for profile in PROFILES:
                 out = _driver.run_impl(ctx.bins[profile], [harness_line(c)])[0]
                 runs += 1
@@ -708,7 +1072,10 @@ MANIFEST = {
             "c08_state_is_flat_array (the model's state is the Rust (buf, begin, end, eof) with a flat array), "
             "c08_model_implies_spec, and the two repaired defects as statements about named old variants. The model is tied to "
             "the code on every run: the executor serves scripted delivery schedules to the real Reader (debug and release) and Coq "
-            "checks model = implementation and implementation |= pure parser on every case.",
+            "checks model = implementation and implementation |= pure parser on every case; the same case type also carries the "
+            "observations of a Reader that is moved in memory between operations, of a Reader sharing the process with a second "
+            "active Reader, of read_vec over tuples / nested tuples, and of the Reader that make_io! builds on the real stdin "
+            "(child process, pipe, real EINTR), so that these are decided by the same model_check / spec_check.",
     "level_note": "Trusted: Coq kernel + vm_compute; the Rust executor and the Python case printer; std::io::Read modelled as "
                   "an oracle with the documented contract (no empty chunk before the end; Interrupted delivers nothing); the "
                   "theorems carry the hypothesis input length < 2^130 (loop fuel); theorems are about the model, the "
